@@ -18,6 +18,9 @@ Record obs := mkO { ans : Z; gets : list Z; pr : list (Z * list (option Z)) }.
 (* order: 0 = the natural order of Z, otherwise reversed;  levels = fingers of the head as printed by the empty list *)
 Record case := mk { order : N; levels : nat; universe : list Z; steps : list (op * obs) }.
 
+(* case files write a run of n trailing nil fingers as [.. ++ rn n] *)
+Definition rn (n : nat) : list (option Z) := repeat None n.
+
 Definition cmpo (o : N) (a b : Z) : comparison := match o with 0%N => Z.compare a b | _ => Z.compare b a end.
 Definition lto (o : N) (a b : Z) : bool := match cmpo o a b with Lt => true | _ => false end.
 
